@@ -10,6 +10,13 @@ min(n, #candidates) distinct candidates — the relational reading of "any n ite
 state advances with the implementation's choice (Props/C11 `dequeue_choice_recoverable`: for a
 result Go can produce under some order, this recovered order reproduces result and queue;
 `orderOf q out` is `recovered q.keys out` whenever `out` has distinct work ids that are keys).
+
+A build hook of the observation shuffles the viewed proposals with a keyed source; the shuffle the
+implementation took is recovered from what it added to the observation ("the work ids it returned, in its
+order"; Props/C11 `observe_choice_recoverable`), so the model's result equals the implementation's iff the
+implementation proposed min(limit, #pending) distinct unexpired pending proposals.  `Start` / `Close` of the
+store ("mstart" / "mclose"; impl.life = what they returned) are compared with the model's service flag; the
+proposal filterer ("filter", plugin level "probe") with the model's filterer.
 -/
 open Lean AutoVerif.Codec
 namespace AutoVerif.C11
@@ -19,19 +26,43 @@ inductive RawOp where
   | enq (ps : List Proposal) | deq (t n : Nat) | outcome (sf : List (List Proposal))
   | tick (t n : Nat) (ok : Bool) (sleep : Nat)
   | obs (first : Bool) (sf : List (List Proposal))
-    -- plugin level: one `Observation` call whose PreviousOutcome carries `sf` (none when `first`);
-    -- its result is the proposals of the observation = both pending sets as the build hooks view them
+    -- one `Observation` call whose PreviousOutcome carries `sf` (none when `first`): the pre-build hooks
+    -- apply `sf`, then the two build hooks (ONE instance of each for the whole history, as the plugin
+    -- holds them) add what the node proposes: at most 5 log and 5 conditional proposals out of the
+    -- pending sets, in the order a keyed shuffle leaves them.  Plugin level: the public `Observation`;
+    -- direct level ("observe"): the real hooks on the store of the history.
+  | observe (t : Nat)     -- one build hook (expansion of `obs`)
+  | svc (start : Bool)    -- MetadataStore.Start / Close on the store of the history
+  | filter (t : Nat) (ps : List Proposal)
+    -- the real proposal filterer of type `t` pre-processes payloads for `ps`; result: what passes
+  | probe (ps : List Proposal)
+    -- plugin level: the recoverable provider offers payloads for `ps`; within the next tick of the recovery
+    -- proposal flow exactly those pass its proposal filterer and reach the runner that are not pending
+    -- (result, in the order of `ps`); the flow then adds them to the pending set
 
-def rawOp (j : Json) : R RawOp := do
+/-- the proposals of an operation: its own `ps`, or those of the earlier operation `ref` (1-based) -/
+def psOf (all : Array Json) (j : Json) : R (List Proposal) := do
+  let ref ← asNat (fieldD j "ref" (.num 0))
+  if ref = 0 then listOf proposal (fieldD j "ps" .null)
+  else match all[ref - 1]? with
+    | some j' => listOf proposal (fieldD j' "ps" .null)
+    | none => throw s!"ref {ref} points outside the history"
+
+def rawOp (all : Array Json) (j : Json) : R RawOp := do
   match ← strF j "op" with
+  | "filter" => pure (.filter (← natF j "t") (← psOf all j))
+  | "probe" => pure (.probe (← psOf all j))
   | "add" => pure (.add (← listF proposal j "ps"))
   | "remove" => pure (.remove (← listF proposal j "ps"))
   | "view" => pure (.view (← natF j "t"))
   | "adv" => pure (.adv (← natF j "d"))
   | "enq" => pure (.enq (← listF proposal j "ps"))
   | "deq" => pure (.deq (← natF j "t") (← natF j "n"))
-  | "outcome" => pure (.outcome (← listF (listOf proposal) j "surfaced"))
+  | "outcome" => pure (.outcome (← listOf (listOf proposal) (fieldD j "surfaced" .null)))
   | "obs" => pure (.obs (← asBool (fieldD j "first" (.bool false))) (← listOf (listOf proposal) (fieldD j "surfaced" .null)))
+  | "observe" => pure (.obs true [])
+  | "mstart" => pure (.svc true)
+  | "mclose" => pure (.svc false)
   | "start" => pure (.adv 0)   -- a final flow is started: nothing happens in the stores
   | "tick" =>
     -- builder script of the tick: fail < 0 = no error; sleep = how long BuildPayloads takes
@@ -101,6 +132,11 @@ structure Walk where
   outs : List (Option (List Proposal)) := []   -- reversed, aligned with ops
   auxs : List (Option (List Proposal)) := []   -- reversed, aligned with ops
   lastSf : Option (List (List Proposal)) := none  -- previous outcome of the last Observation call
+  lifes : List String := []       -- what Start / Close returned, per op ("ok" / "refused" / "")
+  everStarted : Bool := false
+  deferred : List (Nat × String) := []  -- (type, work id) viewed but cut off by the limit in the last observation
+  proposed : List (Nat × String) := []  -- (type, work id) proposed in the last observation
+  peak : Nat := 0                 -- most proposals ever pending at once in one set
 
 def Walk.note (w : Walk) (i : Nat) (what : String) (want got : List Proposal) : Walk :=
   if want = got then w
@@ -108,11 +144,77 @@ def Walk.note (w : Walk) (i : Nat) (what : String) (want got : List Proposal) : 
     { w with agree := false, diff := s!"op {i} {what}: model={want.map showP} impl={got.map showP}" }
   else w
 
+def isPending (tg : String → Nat) (st : St) (p : Proposal) : Bool :=
+  (tg p.upkeepID == logT && (st.ms.log.values.get p.workID).isSome) ||
+  (tg p.upkeepID == condT && (st.ms.cond.values.get p.workID).isSome)
+
+def pendingMax (st : St) : Nat := max st.ms.log.keys.length st.ms.cond.keys.length
+
+/-- where the set of `p`'s type stands relative to the most it ever held -/
+def drainTags (tg : String → Nat) (w : Walk) (ps : List Proposal) : List String :=
+  let st := w.st
+  let absent := ps.any (fun p => (tg p.upkeepID == logT || tg p.upkeepID == condT) && !isPending tg st p)
+  let cur := pendingMax st
+  (if absent then ["remove-of-work-id-that-is-not-pending"] else []) ++
+  (if absent && w.peak ≥ 65 then ["remove-of-not-pending-work-id-after-burst-over-64"] else []) ++
+  (if absent && w.peak ≥ 65 && 4 * cur ≤ w.peak && cur > 0 then ["remove-of-not-pending-work-id-when-drained-to-a-quarter-of-the-burst"] else [])
+
+def lifeTags (w : Walk) (what : String) : List String :=
+  if w.lifes.isEmpty || w.st.life.running then [] else
+    [if w.everStarted then s!"{what}-while-store-closed" else s!"{what}-before-store-first-started"]
+
 def walkStep (tg : String → Nat) (w : Walk) (i : Nat) (rop : RawOp) (out aux : Option (List Proposal)) : Walk :=
   let st := w.st
   match rop with
-  | .add ps => { w with st := step tg st (.add ps), ops := .add ps :: w.ops, tags := w.tags ++ ["add"] }
-  | .remove ps => { w with st := step tg st (.remove ps), ops := .remove ps :: w.ops, tags := w.tags ++ ["remove"] }
+  | .add ps =>
+    let st' := step tg st (.add ps)
+    let readd := ps.any (fun p => w.deferred.contains (tg p.upkeepID, p.workID) || w.proposed.contains (tg p.upkeepID, p.workID))
+    { w with st := st', ops := .add ps :: w.ops, peak := max w.peak (pendingMax st'),
+             tags := w.tags ++ ["add"] ++ lifeTags w "add" ++
+               (if pendingMax st' ≥ 65 then ["pending-set-over-64"] else []) ++
+               (if pendingMax st' ≥ 257 then ["pending-set-over-256"] else []) ++
+               (if w.peak ≥ 65 && 4 * pendingMax st ≤ w.peak then ["add-after-drain-to-a-quarter"] else []) ++
+               (if readd then ["add-of-work-id-seen-in-last-observation"] else []) }
+  | .remove ps =>
+    { w with st := step tg st (.remove ps), ops := .remove ps :: w.ops,
+             tags := w.tags ++ ["remove"] ++ lifeTags w "remove" ++ drainTags tg w ps }
+  | .svc start =>
+    let acc := if start then st.life.start.2 else st.life.close.2
+    let got := (w.lifes[i]?).getD ""
+    let want := if acc then "ok" else "refused"
+    let w := if got == want || !w.agree then w
+      else { w with agree := false, diff := s!"op {i} {if start then "Start" else "Close"}: model={want} impl={got}" }
+    let pend := pendingMax st > 0
+    { w with st := step tg st (.svc start), ops := .svc start :: w.ops,
+             everStarted := w.everStarted || start,
+             tags := w.tags ++ [if start then "store-start" else "store-close"] ++
+               (if !acc then [if start then "store-start-refused-already-running" else "store-close-refused-not-running"] else []) ++
+               (if start && acc && pend && !w.everStarted then ["first-start-with-proposals-already-pending"] else []) ++
+               (if start && acc && pend && w.everStarted then ["restart-with-proposals-pending"] else []) ++
+               (if start && acc && w.everStarted then ["store-restart"] else []) ++
+               (if !start && acc && pend then ["close-with-proposals-pending"] else []),
+             nontrivial := w.nontrivial || (start && acc && pend) }
+  | .observe t =>
+    let got := out.getD []
+    let limit := if t = logT then Gen.observationLogRecoveryProposalsLimit else Gen.observationConditionalsProposalsLimit
+    let view := (st.ms.viewProposals t st.now).1
+    -- the shuffle the implementation took, recovered from its result (as for `Dequeue`)
+    let order := dedup ((got.map (·.workID)).filter (fun k => view.any (·.workID == k)))
+    let op := Op.observe t limit order
+    let want := (st.ms.observe t limit st.now order).1
+    let w := w.note i (if t = logT then "observation: log proposals" else "observation: conditional proposals") want got
+    let cut := view.length > limit
+    let wantIds := want.map (fun p => (t, p.workID))
+    let defer := (view.filter (fun p => !want.contains p)).map (fun p => (t, p.workID))
+    let ot := (if cut then ["observation-cut-by-limit"] else if view.isEmpty then ["observation-nothing-pending"] else ["observation-all-pending-fit"]) ++
+      (if cut && want.any (fun p => w.deferred.contains (t, p.workID)) then ["observation-proposes-what-the-last-one-deferred"] else []) ++
+      (if view.length ≥ 65 then ["observation-of-65-or-more-pending"] else []) ++
+      (if w.peak ≥ 65 && view.length ≤ limit && !view.isEmpty then ["observation-all-fit-after-burst-over-64-drained"] else []) ++
+      lifeTags w "observation"
+    { w with st := step tg st op, ops := op :: w.ops, tags := w.tags ++ ot,
+             deferred := w.deferred.filter (fun d => d.1 != t) ++ defer,
+             proposed := w.proposed.filter (fun d => d.1 != t) ++ wantIds,
+             nontrivial := w.nontrivial || !want.isEmpty }
   | .adv d => { w with st := step tg st (.adv d), ops := .adv d :: w.ops }
   | .enq ps =>
     { w with st := step tg st (.enq ps), ops := .enq ps :: w.ops, tags := w.tags ++ (enqTags st.now st.q ps).1 }
@@ -129,8 +231,13 @@ def walkStep (tg : String → Nat) (w : Walk) (i : Nat) (rop : RawOp) (out aux :
     let siblPend := fl.any (fun p => isPend p && fl.any (fun p' => p'.upkeepID == p.upkeepID && p'.workID != p.workID && isPend p'))
     let siblRounds := sf.any (fun rd => rd.any (fun p => sf.any (fun rd' => rd' != rd &&
       rd'.any (fun p' => p'.upkeepID == p.upkeepID && p'.workID != p.workID && isPend p && isPend p'))))
+    let surfDeferred := fl.any (fun p => isPend p && w.deferred.contains (tg p.upkeepID, p.workID))
+    let surfOwn := fl.any (fun p => isPend p && w.proposed.contains (tg p.upkeepID, p.workID))
     { w with st := step tg st (.outcome sf), ops := .outcome sf :: w.ops,
              tags := w.tags ++ ["outcome"] ++ (if pend then ["outcome-removes-pending-proposal"] else []) ++
+                     (if surfDeferred then ["outcome-surfaces-pending-proposal-the-node-deferred-in-its-last-observation"] else []) ++
+                     (if surfOwn then ["outcome-surfaces-proposal-of-the-node's-last-observation"] else []) ++
+                     lifeTags w "outcome" ++ drainTags tg w fl ++
                      (if sibl then ["outcome-same-upkeep-several-workids"] else []) ++
                      (if siblPend then ["outcome-same-upkeep-several-workids-pending"] else []) ++
                      (if siblRounds then ["outcome-same-upkeep-workids-pending-in-different-rounds"] else []) ++
@@ -141,6 +248,9 @@ def walkStep (tg : String → Nat) (w : Walk) (i : Nat) (rop : RawOp) (out aux :
     let vt := if t = logT then viewTags Gen.logRecoveryExpiryNs st.now st.ms.log
               else if t = condT then viewTags Gen.conditionalExpiryNs st.now st.ms.cond else ["view-other-type"]
     let w := w.note i "view" want got
+    let vt := vt ++ lifeTags w "view" ++ (if want.length ≥ 65 then ["view-of-65-or-more"] else []) ++
+      (if want.length ≥ 257 then ["view-of-257-or-more"] else []) ++
+      (if w.peak ≥ 65 && 4 * want.length ≤ w.peak then ["view-after-drain-to-a-quarter-of-the-burst"] else [])
     { w with st := step tg st (.view t), ops := .view t :: w.ops, tags := w.tags ++ vt,
              nontrivial := w.nontrivial || !want.isEmpty || vt.contains "view-purges-expired" }
   | .deq t n =>
@@ -196,6 +306,18 @@ def walkStep (tg : String → Nat) (w : Walk) (i : Nat) (rop : RawOp) (out aux :
              busy := if sleep > 0 && !deqd.isEmpty then (t, st.now + sleep) :: w.busy else w.busy,
              nontrivial := w.nontrivial || !want.isEmpty }
 
+  | .filter t ps =>
+    let want := (st.ms.filterer t st.now ps).1
+    let got := out.getD []
+    let w := w.note i "proposal filterer: payloads that pass" want got
+    let withheld := ps.length - want.length
+    { w with st := step tg st (.filter t ps), ops := .filter t ps :: w.ops,
+             tags := w.tags ++ ["filterer"] ++ (if withheld > 0 then ["filterer-withholds-pending"] else []) ++
+               (if !want.isEmpty then ["filterer-lets-pass"] else []) ++
+               (if withheld ≥ 32 then ["filterer-withholds-32-or-more"] else []) ++
+               (if w.peak ≥ 65 && withheld > 0 then ["filterer-after-burst-over-64"] else []) ++ lifeTags w "filterer",
+             nontrivial := w.nontrivial || withheld > 0 }
+  | .probe _ => w   -- expanded by walkRaw
   | .obs _ _ => w   -- expanded by walkRaw
 
 def pushStep (tg : String → Nat) (w : Walk) (i : Nat) (rop : RawOp) (out aux : Option (List Proposal)) : Walk :=
@@ -213,10 +335,10 @@ def walkRaw (tg : String → Nat) (w : Walk) (i : Nat) (rop : RawOp) (out aux : 
   match rop with
   | .obs first sf =>
     -- Observation = pre-build hooks on the previous outcome (remove-from-metadata, add-to-proposalq),
-    -- then the build hooks view the log and the conditional pending set
+    -- then the build hooks: log proposals, then conditional proposals
     let got := out.getD []
-    let logs := sortByWid (got.filter (fun p => tg p.upkeepID == logT))
-    let conds := sortByWid (got.filter (fun p => tg p.upkeepID == condT))
+    let logs := got.filter (fun p => tg p.upkeepID == logT)
+    let conds := got.filter (fun p => tg p.upkeepID == condT)
     let other := got.filter (fun p => tg p.upkeepID != logT && tg p.upkeepID != condT)
     let again := !first && w.lastSf == some sf
     let st := w.st
@@ -224,13 +346,18 @@ def walkRaw (tg : String → Nat) (w : Walk) (i : Nat) (rop : RawOp) (out aux : 
       (tg p.upkeepID == logT && (st.ms.log.values.get p.workID).isSome) ||
       (tg p.upkeepID == condT && (st.ms.cond.values.get p.workID).isSome))
     let w := if first then w else pushStep tg w i (.outcome sf) none none
-    let w := pushStep tg w i (.view logT) (some logs) none
-    let w := pushStep tg w i (.view condT) (some conds) none
+    let w := pushStep tg w i (.observe logT) (some logs) none
+    let w := pushStep tg w i (.observe condT) (some conds) none
     let w := w.note i "observation: proposals of a type the store does not keep" [] other
+    let w := w.note i "observation: log proposals come first, then conditional ones" (logs ++ conds ++ other) got
     { w with tags := w.tags ++ ["observation"] ++ (if first then ["observation-first-round"] else []) ++
                 (if again then ["observation-same-previous-outcome-again"] else []) ++
                 (if again && readded then ["same-outcome-again-must-remove-readded-proposal"] else []),
              lastSf := if first then none else some sf }
+  | .probe ps =>
+    let w := pushStep tg w i (.filter logT ps) out none
+    let w := pushStep tg w i (.add ps) none none
+    pushStep tg w i (.adv 1300000000) none none
   | _ => pushStep tg w i rop out aux
 
 def walk (tg : String → Nat) : List RawOp → List (Option (List Proposal)) → List (Option (List Proposal)) → Nat →
@@ -310,13 +437,15 @@ def handle (input impl : Json) : R Reply := do
   let tg : String → Nat := fun uid => (table.lookup uid).getD 255
   if (fieldD input "mode" (.str "")) == .str "stress" then return ← handleStress input impl tg
   let implErr := match fieldD impl "err" (.str "") with | .str e => e | _ => ""
-  let rops ← listF rawOp input "ops"
+  let opsJ ← listF (fun j => pure j) input "ops"
+  let rops ← opsJ.mapM (rawOp opsJ.toArray)
   let outs ← listF outOf impl "outs"
   if outs.length ≠ rops.length then throw s!"outs has {outs.length} entries for {rops.length} ops"
   let auxs ← listOf outOf (fieldD impl "aux" .null)
   -- final-flow activity the history did not declare (a tick or a runner call at an unexpected time)
   let extra ← asNat (fieldD impl "extra" (.num 0))
-  let w := walk tg rops outs auxs 0 { st := St.init 0 }
+  let lifes ← listOf (fun j => match j with | .str x => pure x | _ => pure "") (fieldD impl "life" .null)
+  let w := walk tg rops outs auxs 0 { st := St.init 0, lifes := lifes }
   let ops := w.ops.reverse
   let outs := w.outs.reverse
   let auxs := w.auxs.reverse
